@@ -1233,9 +1233,8 @@ def bs_lookback_price(
 
     See :func:`pfhedge.nn.BSLookbackOption.price` for details.
     """
-    s, m, t, v = map(
-        torch.as_tensor,
-        (log_moneyness, max_log_moneyness, time_to_maturity, volatility),
+    s, m, t, v = broadcast_all(
+        log_moneyness, max_log_moneyness, time_to_maturity, volatility
     )
 
     spot = s.exp() * strike
@@ -1270,9 +1269,8 @@ def bs_lookback_delta(
 
     See :func:`pfhedge.nn.BSLookbackOption.delta` for details.
     """
-    s, m, t, v = map(
-        torch.as_tensor,
-        (log_moneyness, max_log_moneyness, time_to_maturity, volatility),
+    s, m, t, v = broadcast_all(
+        log_moneyness, max_log_moneyness, time_to_maturity, volatility
     )
     w = (v * t.sqrt()).abs()
     d1_value = d1(s, t, v)
